@@ -155,7 +155,7 @@ def _cover(tuples, k):
 
 # ----------------------------------------------------------------------------
 def run_case(ctx, proto, lay, xop, nself, xconfig, nm, npg, answers=None, bound=None, counters=(0, 0),
-             two_calls=False, split=None, seed=None, pgopts=None, xdtype="int64"):
+             two_calls=False, split=None, seed=None, pgopts=None, xdtype="int64", use_miscout=False):
     """Explore all answer vectors (<= bound deviations) of one configuration."""
     n = 3 if max(max(r) for r in xconfig) >= 2 else 3
     seed = ctx.seed if seed is None else seed
@@ -168,7 +168,7 @@ def run_case(ctx, proto, lay, xop, nself, xconfig, nm, npg, answers=None, bound=
     nm_a = nm if isinstance(nm, int) else numpy.array(nm, dtype="int64")
     np_a = npg if isinstance(npg, int) else numpy.array(npg, dtype="int64")
     case_base = dict(proto=proto, layout=list(lay), xoprob=list(xop), nself=nself, xconfig=[list(r) for r in xconfig],
-                     nmating=nm, nprogeny=npg, counters=list(counters), two_calls=two_calls, seed=seed, pgopts=pgopts, xdtype=xdtype)
+                     nmating=nm, nprogeny=npg, counters=list(counters), two_calls=two_calls, seed=seed, pgopts=pgopts, xdtype=xdtype, use_miscout=use_miscout)
 
     def run(ch):
         h = MeiosisHandler(ch, xop, mode="full")
@@ -179,7 +179,8 @@ def run_case(ctx, proto, lay, xop, nself, xconfig, nm, npg, answers=None, bound=
         xc_i = xc.copy()
         nm_i = nm_a if isinstance(nm_a, int) else nm_a.copy()
         np_i = np_a if isinstance(np_a, int) else np_a.copy()
-        o1 = prot.mate(pg, xc_i, nm_i, np_i, nself=nself)
+        mo = {} if use_miscout else None        # optional output dict given / omitted
+        o1 = prot.mate(pg, xc_i, nm_i, np_i, nself=nself, miscout=mo)
         ncall1 = len(h.draws)
         cnt1 = (prot.progeny_counter, prot.family_counter)
         o2 = None
@@ -350,7 +351,9 @@ def run_shard(spec, ctx):
         for ci, (xconfig, nm, npg) in enumerate(cfgs):
             counters = (0, 0) if ci % 2 == 0 else (5, 17)
             run_case(ctx, proto, lay, xop, nself, xconfig, nm, npg, bound=bound, counters=counters,
-                     two_calls=(ci % 3 == 0))
+                     two_calls=(ci % 3 == 0), use_miscout=(ci % 2 == 1))
+            if ci % 2 == 1:
+                ctx.flag("miscout-dict-given")
             ctx.flag(f"L1:{proto}:ncross{len(xconfig)}:nself{nself}")
             if not isinstance(nm, int) or not isinstance(npg, int):
                 ctx.flag("array-counts")
@@ -479,7 +482,7 @@ def finalize(ctx, tier, seed):
               "variants-stored-unsorted", "optional-arrays-absent"):
         assert f in ctx.flags, f
     assert len(ctx.outcomes) > 100, len(ctx.outcomes)
-    assert "L5:core.util.mate" in ctx.flags and "L6:narrow-index-dtype" in ctx.flags
+    assert "L5:core.util.mate" in ctx.flags and "L6:narrow-index-dtype" in ctx.flags and "miscout-dict-given" in ctx.flags
 
 
 def replay(case, ctx):
@@ -489,4 +492,4 @@ def replay(case, ctx):
         return
     run_case(ctx, case["proto"], tuple(case["layout"]), case["xoprob"], case["nself"],
              [tuple(r) for r in case["xconfig"]], case["nmating"], case["nprogeny"],
-             answers=case["answers"], counters=tuple(case["counters"]), two_calls=case["two_calls"], seed=case.get("seed"), pgopts=case.get("pgopts"), xdtype=case.get("xdtype", "int64"))
+             answers=case["answers"], counters=tuple(case["counters"]), two_calls=case["two_calls"], seed=case.get("seed"), pgopts=case.get("pgopts"), xdtype=case.get("xdtype", "int64"), use_miscout=case.get("use_miscout", False))
